@@ -188,7 +188,8 @@ Definition move_result (ps : list peer) (src dst id : Z) : list peer :=
 
 (* ---------- observed cases ---------- *)
 Inductive sched := SBalanceRegion | SBalanceLeader | SHotRegion | SShuffleRegion | SShuffleLeader | SShuffleHot
-                 | SEvictLeader | SGrantLeader | SLabel | SScatterRange | SScatter.
+                 | SEvictLeader | SGrantLeader | SLabel | SScatterRange | SScatter
+                 | SScatterConc.   (* Scatter calls of several goroutines interleaved on one RegionScatterer: monitor only *)
 
 Record impl_op := ImplOp { io_steps : list step; io_final : rstate }.
 
@@ -280,21 +281,23 @@ Definition check_scatter (c : case) (so : scatter_obs) : verdict :=
    leader moves through flags *)
 Record sched_model := SchedModel {
   sm_move : option (sfilter * (store -> bool) * bool);
-  sm_leader : option sfilter
+  sm_leader : option sfilter;
+  sm_any : bool            (* no admissible-set model: only the step cross-check and the monitor apply *)
 }.
 Definition sched_model_of (k : sched) : sched_model :=
   match k with
-  | SBalanceRegion => SchedModel (Some (Gen_C11.balance_region_target_flags, special_use, false)) None
-  | SShuffleRegion => SchedModel (Some (Gen_C11.shuffle_region_flags, special_use, false)) None
-  | SHotRegion => SchedModel (Some (Gen_C11.hot_move_flags, special_use_reserved, false)) (Some Gen_C11.hot_leader_flags)
-  | SShuffleHot => SchedModel (Some (Gen_C11.shuffle_hot_flags, no_special_use_filter, true)) None
-  | SScatterRange => SchedModel (Some (Gen_C11.balance_region_target_flags, special_use, false)) (Some Gen_C11.balance_leader_flags)
-  | SBalanceLeader => SchedModel None (Some Gen_C11.balance_leader_flags)
-  | SShuffleLeader => SchedModel None (Some Gen_C11.shuffle_leader_flags)
-  | SEvictLeader => SchedModel None (Some Gen_C11.evict_leader_flags)
-  | SLabel => SchedModel None (Some Gen_C11.label_flags)
-  | SGrantLeader => SchedModel None (Some [])             (* CreateForceTransferLeaderOperator: no store filter *)
-  | SScatter => SchedModel None None
+  | SBalanceRegion => SchedModel (Some (Gen_C11.balance_region_target_flags, special_use, false)) None false
+  | SShuffleRegion => SchedModel (Some (Gen_C11.shuffle_region_flags, special_use, false)) None false
+  | SHotRegion => SchedModel (Some (Gen_C11.hot_move_flags, special_use_reserved, false)) (Some Gen_C11.hot_leader_flags) false
+  | SShuffleHot => SchedModel (Some (Gen_C11.shuffle_hot_flags, no_special_use_filter, true)) None false
+  | SScatterRange => SchedModel (Some (Gen_C11.balance_region_target_flags, special_use, false)) (Some Gen_C11.balance_leader_flags) false
+  | SBalanceLeader => SchedModel None (Some Gen_C11.balance_leader_flags) false
+  | SShuffleLeader => SchedModel None (Some Gen_C11.shuffle_leader_flags) false
+  | SEvictLeader => SchedModel None (Some Gen_C11.evict_leader_flags) false
+  | SLabel => SchedModel None (Some Gen_C11.label_flags) false
+  | SGrantLeader => SchedModel None (Some []) false             (* CreateForceTransferLeaderOperator: no store filter *)
+  | SScatter => SchedModel None None false
+  | SScatterConc => SchedModel None None true
   end.
 
 Definition check_sched (c : case) (io : impl_op) : verdict :=
@@ -306,6 +309,7 @@ Definition check_sched (c : case) (io : impl_op) : verdict :=
       if negb (rstate_eqb fin (io_final io)) then VBad "Coq step semantics and the Go simulator disagree"
       else
         let m := sched_model_of (c_sched c) in
+        if sm_any m then VOk else
         match is_replace_shape (start_state r) fin with
         | Some (src, dst) =>
             match sm_move m with
@@ -352,6 +356,7 @@ Definition sched_name (k : sched) : string :=
   | SShuffleRegion => "shuffle-region" | SShuffleLeader => "shuffle-leader" | SShuffleHot => "shuffle-hot-region"
   | SEvictLeader => "evict-leader" | SGrantLeader => "grant-leader" | SLabel => "label" | SScatterRange => "scatter-range"
   | SScatter => "scatter"
+  | SScatterConc => "scatter-concurrent"
   end.
 
 Definition monitor (c : case) : option string :=
